@@ -451,6 +451,28 @@ func init() {
 			g.emit("countprefixes %s 1 131071 18", ks)
 			// several queries on one object: ranges whose (start, end) agree in their low 16 bits, far-apart ranges
 			g.emit("cpm %s 0:65552:4;1:16:4;65537:65552:6;1:131072:3;131000:131072:9;0:2:5", ks)
+			// pairs of ranges that a key built from (s, e) by shifts, xors, sums or truncation would confuse
+			for rep := 0; rep < 3; rep++ {
+				s0 := g.intn(300)
+				e0 := s0 + 257 + g.intn(2000)
+				qs := []string{}
+				add := func(s, e int) {
+					if s >= 0 && e <= 1<<17 && e-s >= 2 {
+						qs = append(qs, fmt.Sprintf("%d:%d:%d", s, e, 3+g.intn(4)))
+					}
+				}
+				add(s0, e0)
+				for _, d := range [][2]int{{1, 65536}, {1, -65536}, {0, 65536}, {65536, 65536}, {2, 131072 - e0}, {1, -1}, {-1, 1}} {
+					add(s0+d[0], e0+d[1])
+					add(s0+d[0], e0^65536)
+					add(s0, e0)
+				}
+				add(s0+1, (e0^(1<<16)))
+				add(s0+1, e0+1<<16)
+				add(e0, e0+(e0-s0))
+				add(s0, e0)
+				g.emit("cpm %s %s", ks, strings.Join(qs, ";"))
+			}
 			if g.thorough() {
 				// more than 2^18 keys: all 19-bit values
 				var sb2 strings.Builder
